@@ -140,7 +140,7 @@ class _Extract:
                     # states which elements, in which order, the iterator yields)
                     want_expr, vec_decl, vec_name = over[:3]
                     elem = (over[3] if len(over) > 3 else '{v}[{i}]').format(v=vec_name, i=iname)   # how element i is obtained
-                    mh = re.match(r'for\s+([A-Za-z_][A-Za-z0-9_]*)\s+in\s+(.*?)\s*$', head, re.S)
+                    mh = re.match(r'for\s+([A-Za-z_][A-Za-z0-9_]*|\([^)]*\))\s+in\s+(.*?)\s*$', head, re.S)   # identifier or tuple pattern
                     got = norm_ws(item.src.text[kw:ob]).split(' in ', 1)[1].strip() if mh else None
                     if not mh or got != norm_ws(want_expr):
                         raise LostAnchor('%s: loop #%d does not iterate `%s`: `%s`' % (item.name, k, want_expr, head.strip()))
